@@ -19,7 +19,7 @@ GEN = ["dl"]
 RULE = ("histories of insert(auto / at reference key+side / as root / at raw index), delete, upsert, batch_insert, "
         "calculate_lazy_hashes, reload over small key pools (4-10 keys incl. 0, 1, -1, i64::MIN/MAX) and small hash pools "
         "(forcing KeyAlreadyPresent / HashAlreadyPresent), grow-then-drain histories (deletes down to 2/1/0 leaves, "
-        "free-index reuse), batches of size 0..n on trees of 0,1,2,n leaves, large random key spaces, blobs above 80 "
+        "free-index reuse), batches of size 0..n on trees of 0,1,2,n leaves, large random key spaces, blobs above 200 "
         "blocks (compared by SHA-256). non-trivial/distinct = distinct (operation kind, location kind, leaf-count class "
         "before the operation {0,1,2,3-7,8+}, result) tuples reached with a non-empty tree or a successful result")
 ASSUMPTIONS = ["TreeIndex is u32 and blob.len()/BLOCK_SIZE is cast with `as u32`: the model has no wrap-around (blobs below 2^32 blocks)",
@@ -371,12 +371,20 @@ def gen_history(rng, kind, tier):
             if r.chance(1, 3):
                 g.push(("l",))
         g.push(("h",))
-    else:  # big: beyond 80 blocks, blob compared by SHA-256
+    elif kind == "medium":  # 30-70 leaves, hashing in between so that dirty nodes do not pile up
         g = Gen(r, 0, 0, large=True)
-        g.batch(30 + r.below(25 * scale))
-        for _ in range(12 + r.below(12)):
-            g.insert()
-        for _ in range(10):
+        g.batch(20 + r.below(25 * scale))
+        g.push(("h",))
+        for _ in range(14 + r.below(10)):
+            g.random_op()
+            if r.chance(1, 4):
+                g.push(("h",))
+        g.push(("h",))
+    else:  # big: beyond 200 blocks, blob compared by SHA-256
+        g = Gen(r, 0, 0, large=True)
+        g.batch(101 + r.below(20 * scale))
+        g.push(("h",))
+        for _ in range(5):
             g.random_op()
         g.push(("h",))
     return g.ops
@@ -593,7 +601,8 @@ def run(ctx):
                     l = l.strip()
                     if l and not l.startswith("#"):
                         hists.append(("corpus", [parse_tok(t) for t in l.split(" ")[1:] if t]))
-        mix = (["churn"] * 50 + ["drain"] * 28 + ["batch"] * 28 + ["large"] * 14 + ["reload"] * 16 + ["big"] * 4)
+        mix = (["churn"] * 50 + ["drain"] * 28 + ["batch"] * 28 + ["large"] * 10 + ["reload"] * 16 + ["medium"] * 6 + ["big"] * 2)
+        rng.fork("mix").shuffle(mix)
         mult = 1 if tier == "quick" else 12
         for rep_i in range(mult):
             for i, kind in enumerate(mix):
